@@ -1403,6 +1403,12 @@ impl Interp {
     /// Binds handle `h` to `db.keyspace(name, make)` (shared by `ks` / `ksx`).
     fn bind_ks(&self, h: &str, name: &str, make: impl FnOnce() -> KeyspaceCreateOptions) -> R {
         let db = self.state().db()?;
+        // the options closure is a pause site of the harness itself (`harness.ks.options`): `Database::keyspace` calls it
+        // only for a name that does not exist yet, at the point where it decides to create the keyspace
+        let make = move || {
+            fjall::verif_hooks::pause("harness.ks.options");
+            make()
+        };
         // Keyspace creation goes through the tx database's own `keyspace()`
         // so that the tx keyspace type is available.
         let ks = match &db {
